@@ -141,9 +141,23 @@ def apply_impl(ev, op):
         elif k == 'obj_clear':
             ev[op[1]].clear()
         elif k == 'obj_update':
-            ev[op[1]].update(list(op[2]))
+            via = op[3] if len(op) > 3 else None
+            if via == 'copy_properties_from':
+                from edxml import EDXMLEvent
+                ev.copy_properties_from(EDXMLEvent({'zz': list(op[2])}, 'ta', '/s/'), {'zz': op[1]})
+            elif via == 'move_properties_from':
+                from edxml import EventElement
+                ev.move_properties_from(EventElement({'zz': list(op[2])}, 'ta', '/s/'), {'zz': [op[1]]})
+            else:
+                ev[op[1]].update(list(op[2]))
         elif k == 'props_setitem':
-            ev.properties[op[1]] = list(op[2])
+            via = op[3] if len(op) > 3 else None
+            if via == 'object-set-of-another-event':
+                from edxml import EDXMLEvent, EventElement
+                other = (EDXMLEvent if len(op[2]) % 2 else EventElement)({'zz': list(op[2])}, 'ta', '/s/')
+                ev.properties[op[1]] = other.properties['zz']
+            else:
+                ev.properties[op[1]] = list(op[2])
         elif k == 'props_delitem':
             del ev.properties[op[1]]
         elif k == 'set_properties':
@@ -231,9 +245,10 @@ def gen_op(rng, allow_copy=True):
     if r < 0.40:
         return ('obj_clear', p)
     if r < 0.45:
-        return ('obj_update', p, vs)
+        via = rng.choice([None, None, 'copy_properties_from', 'move_properties_from'])
+        return ('obj_update', p, vs, via) if via else ('obj_update', p, vs)
     if r < 0.49:
-        return ('props_setitem', p, vs)
+        return ('props_setitem', p, vs, 'object-set-of-another-event') if rng.random() < 0.4 else ('props_setitem', p, vs)
     if r < 0.52:
         return ('props_delitem', p)
     if r < 0.56:
@@ -259,7 +274,7 @@ def gen_op(rng, allow_copy=True):
     if r < 0.91:
         return ('set_source', rng.choice(['/s/', '/s2/']))
     if r < 0.94:
-        return ('set_foreign', {k: rng.choice(['1', '2']) for k in rng.sample(FKEYS, rng.randint(1, 2))})
+        return ('set_foreign', {k: rng.choice(['1', '2']) for k in rng.sample(FKEYS, rng.randint(0, 2))})
     if r < 0.97 and allow_copy:
         return ('copy',)
     return ('flush',)
